@@ -418,6 +418,16 @@ def st_case(draw):
         cols.insert(p, {"title": "", "conv": "str", "attr": None})
         if p <= pos:
             pos += 1
+    # a second run of unknown titled columns (side notes) behind a separator: never part of the range
+    if n_unknown and draw(st.integers(0, 2)) == 0:
+        p2 = draw(st.integers(pos + n_unknown, len(cols)))
+        while pos + n_unknown < p2 < len(cols) and cols[p2 - 1]["title"] == "" and cols[p2]["title"] == "":
+            p2 += 1
+        extra = [{"title": "V%d" % i, "conv": draw(st.sampled_from(["str", uconv])), "attr": None}
+                 for i in range(draw(st.integers(1, 2)))]
+        if p2 == pos + n_unknown or draw(st.booleans()):
+            extra.insert(0, {"title": "", "conv": "str", "attr": None})
+        cols = cols[:p2] + extra + cols[p2:]
     second = None
     entry = draw(st.sampled_from(["iter_table", "read_table", "read_table", "mixin", "two_readers"]))
     if entry == "two_readers":
